@@ -123,3 +123,10 @@ package collect
 //@ contract collect.unmarshalStressReliefMessage props C28
 //@   arith wraps
 //@   modifies nothing
+
+// ---- C28: start-up with validated settings. No validation rule gives the queue
+// sizes a minimum, so the channel capacities are unconstrained here (open finding).
+//@ contract collect.NewCollectorWorker props C28 havoc
+//@   assert only make-chan-size
+//@   assert finding F-C28-4 make-chan-size
+//@   requires parent != nil
